@@ -51,6 +51,10 @@ pub struct Case {
     /// index into METHODS: which codes are followed does not depend on the request method
     #[serde(default)]
     pub method: u8,
+    /// the request is prepared once and sent twice: the second walk is judged exactly like the first (nothing counted,
+    /// resolved or remembered during the first send carries over)
+    #[serde(default)]
+    pub send_twice: bool,
 }
 
 pub const METHODS: &[&str] = &["GET", "GET", "POST", "PUT", "PATCH", "DELETE", "HEAD", "OPTIONS", "QUERY"];
@@ -207,14 +211,25 @@ final outcome. non-trivial = >= 2 requests, or the bound hit exactly, or a relat
         let terminal = prop_oneof![Just(200u16), Just(204), Just(404), Just(500), Just(201)];
         prop_oneof![
             6 => (start.clone(), proptest::collection::vec(hop, 0..10), terminal.clone(), 0u32..9, prop::bool::weighted(0.85))
-                .prop_map(|(start, hops, terminal, max_redirections, follow)| Case { start, hops, terminal, max_redirections, follow, via_proxy: false, method: 0 }),
+                .prop_map(|(start, hops, terminal, max_redirections, follow)| Case { start, hops, terminal, max_redirections, follow, via_proxy: false, method: 0, send_twice: false }),
             // exactly at the bound / one beyond it
             2 => (start.clone(), 0u32..9, proptest::collection::vec(good_hop.clone(), 10), terminal.clone())
-                .prop_map(|(start, max, hops, terminal)| Case { start, hops: hops.into_iter().take(max as usize).collect(), terminal, max_redirections: max, follow: true, via_proxy: false, method: 0 }),
+                .prop_map(|(start, max, hops, terminal)| Case { start, hops: hops.into_iter().take(max as usize).collect(), terminal, max_redirections: max, follow: true, via_proxy: false, method: 0, send_twice: false }),
             2 => (start, 0u32..9, proptest::collection::vec(good_hop, 10), terminal)
-                .prop_map(|(start, max, hops, terminal)| Case { start, hops: hops.into_iter().take(max as usize + 1).collect(), terminal, max_redirections: max, follow: true, via_proxy: false, method: 0 }),
+                .prop_map(|(start, max, hops, terminal)| Case { start, hops: hops.into_iter().take(max as usize + 1).collect(), terminal, max_redirections: max, follow: true, via_proxy: false, method: 0, send_twice: false }),
         ]
-        .prop_flat_map(|c| (prop::bool::weighted(0.25), 0u8..METHODS.len() as u8).prop_map(move |(via_proxy, method)| Case { via_proxy, method, ..c.clone() }))
+        .prop_flat_map(|c| {
+            (prop::bool::weighted(0.25), 0u8..METHODS.len() as u8, prop::bool::weighted(0.2), prop_oneof![12 => Just(None), 1 => Just(Some(u32::MAX)), 1 => Just(Some(u32::MAX - 1))]).prop_map(move |(via_proxy, method, send_twice, huge)| {
+                let mut c = Case { via_proxy, method, send_twice, ..c.clone() };
+                // "no practical bound": the largest values of the setting behave like any other bound
+                if let Some(h) = huge {
+                    if c.follow && c.hops.len() <= 10 {
+                        c.max_redirections = h;
+                    }
+                }
+                c
+            })
+        })
         .boxed()
     }
 
@@ -282,6 +297,21 @@ final outcome. non-trivial = >= 2 requests, or the bound hit exactly, or a relat
         let expect = expect.unwrap();
 
         // ---- run ---------------------------------------------------------------------------------
+        let method = METHODS[case.method as usize % METHODS.len()];
+        ctx.label_if(!matches!(method, "GET" | "HEAD"), "method-other-than-get-or-head");
+        ctx.label_if(case.send_twice, "prepared-once-sent-twice");
+        ctx.label_if(case.max_redirections >= u32::MAX - 1, "max_redirections-near-u32::MAX");
+        let mut prepared = match attohttpc::RequestBuilder::new(http::Method::from_bytes(method.as_bytes()).unwrap(), start.render())
+            .proxy_settings(if case.via_proxy { attohttpc::ProxySettings::builder().http_proxy(url::Url::parse("http://proxy.test:3128").unwrap()).build() } else { no_proxy() })
+            .max_redirections(case.max_redirections)
+            .follow_redirects(case.follow)
+            .try_prepare()
+        {
+            Ok(p) => p,
+            Err(e) => return Outcome::fail("C09:prepare-failed", format!("{e:?}")),
+        };
+        let mut n_exchanges = 0;
+        for send_no in 0..(1 + usize::from(case.send_twice)) {
         let net: Arc<Mutex<Vec<(Dial, Arc<Mutex<Log>>)>>> = Arc::new(Mutex::new(vec![]));
         let net2 = net.clone();
         let responses2 = responses.clone();
@@ -297,13 +327,8 @@ final outcome. non-trivial = >= 2 requests, or the bound hit exactly, or a relat
             n.push((dial.clone(), log));
             Ok(Box::new(t) as Box<dyn Transport>)
         });
-        let method = METHODS[case.method as usize % METHODS.len()];
-        ctx.label_if(!matches!(method, "GET" | "HEAD"), "method-other-than-get-or-head");
-        let res = attohttpc::RequestBuilder::new(http::Method::from_bytes(method.as_bytes()).unwrap(), start.render())
-            .proxy_settings(if case.via_proxy { attohttpc::ProxySettings::builder().http_proxy(url::Url::parse("http://proxy.test:3128").unwrap()).build() } else { no_proxy() })
-            .max_redirections(case.max_redirections)
-            .follow_redirects(case.follow)
-            .send();
+        let res = prepared.send();
+        drop(_guard);
         let exchanges: Vec<(Dial, Vec<u8>)> = net.lock().unwrap().iter().map(|(d, l)| (d.clone(), l.lock().unwrap().written.clone())).collect();
 
         // ---- compare -----------------------------------------------------------------------------
@@ -392,8 +417,11 @@ final outcome. non-trivial = >= 2 requests, or the bound hit exactly, or a relat
             (Expect::AnyErrOrUnmodelled, _) => {}
             (e, Ok(r)) => return Outcome::fail("C09:missing-error", format!("expected {e:?}, got a {} response from {}", r.status(), r.url())),
         }
+        n_exchanges = exchanges.len();
+        let _ = send_no;
+        }
         let chain = urls.len() - 1;
-        ctx.nontrivial = exchanges.len() >= 2 || (case.follow && (case.hops.len() == case.max_redirections as usize || case.hops.len() == case.max_redirections as usize + 1)) || dot_segments || authority_change;
+        ctx.nontrivial = n_exchanges >= 2 || (case.follow && (case.hops.len() == case.max_redirections as usize || case.hops.len() == case.max_redirections as usize + 1)) || dot_segments || authority_change;
         ctx.label_if(case.follow && matches!(expect, Expect::TooMany), "too-many");
         ctx.label_if(case.follow && chain == case.max_redirections as usize && matches!(expect, Expect::Response { .. }), "chain==max (allowed)");
         ctx.label_if(!case.follow, "following-off");
@@ -401,10 +429,10 @@ final outcome. non-trivial = >= 2 requests, or the bound hit exactly, or a relat
         ctx.label_if(authority_change, "authority-change");
         ctx.label_if(matches!(expect, Expect::LocationErr), "missing-location");
         ctx.label_if(matches!(expect, Expect::SomeErr), "unusable-location");
-        ctx.label_if(unmodelled, "ambiguous-accepted");
+        ctx.label_if(matches!(expect, Expect::AnyErrOrUnmodelled), "ambiguous-accepted");
         ctx.label_if(case.hops.iter().any(|h| !FOLLOWED.contains(&h.status)), "non-followed-3xx");
         ctx.label_if(case.hops.iter().any(|h| matches!(h.loc, Loc::BackToStart | Loc::SelfRef)), "cycle");
-        ctx.label_if(exchanges.len() >= 2, ">=2-requests");
+        ctx.label_if(n_exchanges >= 2, ">=2-requests");
         Outcome::Pass
     }
 }
